@@ -1,0 +1,10 @@
+//go:build verif
+// +build verif
+
+package pkcs12
+
+// Hooks for the verification harness (build tag "verif" only).
+
+// VerifBmpString and VerifDecodeBMPString expose the BMPString codec used for PKCS#12 passwords.
+func VerifBmpString(s string) ([]byte, error)       { return bmpString(s) }
+func VerifDecodeBMPString(b []byte) (string, error) { return decodeBMPString(b) }
